@@ -501,8 +501,6 @@ class Grammar(Model):
         keywords = keywords or config.keywords or ()
         keywords = tuple(k for k in keywords or () if k)
         assert isinstance(keywords, tuple)
-        if self.config.ignorecase:
-            keywords = tuple(k.upper() for k in keywords if k)
         keywords = tuple(sorted(set(keywords)))
         assert isinstance(keywords, tuple)
         self.keywords = keywords
